@@ -79,6 +79,10 @@ package contracts
 //@ -- canonical MIME header key (textproto.CanonicalMIMEHeaderKey), uninterpreted
 //@ pure func canon(s string) string
 //@ axiom [canon-idempotent] forall s string :: canon(canon(s)) == canon(s)
+//@ func http.CanonicalHeaderKey :: s -> r
+//@   trusted
+//@   pure
+//@   ensures r == canon(s)
 //@ -- net.SplitHostPort(addr): success flag and host part, uninterpreted
 //@ pure func splitOK(addr string) bool
 //@ pure func hostOf(addr string) string
